@@ -64,6 +64,9 @@ def run(ck, fb, fbd):
     ck.rule("C11.dedup", "add_edge without duplicates inspects the to-vertex of halfedges leaving the from-vertex (cache branch) and both orientations of every edge (linear branch)")
     from .rule_u import sorted_rule
     sorted_rule(ck, fb, lambda g: g.pq.startswith(TK + "::"), floor=2)
+    # an accepted call appends exactly the given definition: the hexahedral re-ordering hands on a complete list (shared with C16)
+    from .c15_c16 import reorder_total_rule
+    reorder_total_rule(ck, fb)
     elem = elem_effects(c)
     # kernel / resource-manager members that change state: direct shape or cache-element effects, closed under calls
     mutating = {fid for fid in c.eff} | {fid for fid, v in elem.items() if v}
